@@ -173,12 +173,21 @@ def parse_template(path: str):
                     blk["region_sig"], i = multiline(i)
                 elif t.startswith("//@ region-tail <<"):
                     blk["region_tail"], i = multiline(i)
-                elif t.startswith("//@ region `") or t.startswith("//@ region ^"):
+                elif t.startswith("//@ region `") or t.startswith("//@ region ^") or t.startswith("//@ region >`"):
                     # X16 region extraction: only the block statement that starts on the line containing the anchor
                     # (through its matching brace) is taken from the function; the template supplies a signature whose
                     # parameters are the region's free variables (region-sig) and the statements after it (region-tail)
                     # `^` as the start anchor: the region starts with the first statement of the body;
                     # `..< `b``: the region ends just before the line that contains b (b itself is not part of it)
+                    # `>`a``: the region starts right AFTER the block statement that begins at a;  `..$`: it runs to the end of the body
+                    blk["region_after"] = False
+                    blk["region_to_end"] = False
+                    if t.startswith("//@ region >`"):
+                        blk["region_after"] = True
+                        t = "//@ region `" + t[len("//@ region >`"):]
+                    if t.rstrip().endswith("..$"):
+                        blk["region_to_end"] = True
+                        t = t.rstrip()[:-3].rstrip()
                     mr = re.match(r"//@ region (?:`(.*?)`|(\^))(?: \.\.([;<]?) `(.*)`)?\s*$", t)
                     blk["region"] = mr.group(1) if mr.group(1) is not None else "^"
                     blk["region_to"] = mr.group(4)   # optional: the block statement that ends the region starts at this anchor
@@ -279,12 +288,23 @@ def build_item(repo: str, blk: dict, report: dict):
             if k < 0:
                 raise LostAnchor(f"{key}: region anchor `{blk['region']}` not found")
             ls = body.rfind("\n", 0, k) + 1
+            if blk.get("region_after"):
+                ob0 = bm.find("{", k)
+                cb0 = match_brace(bm, ob0)
+                semi = bm.find(";", cb0)
+                nl = body.find("\n", cb0)
+                ls = (semi + 1) if (semi >= 0 and (nl < 0 or semi < nl)) else cb0 + 1
+                k = ls
         k2 = k
         if blk.get("region_to"):
             k2 = body.find(blk["region_to"], k)
             if k2 < 0:
                 raise LostAnchor(f"{key}: region end anchor `{blk['region_to']}` not found")
-        if blk.get("region_to_excl"):
+        if blk.get("region_to_end"):
+            cb = len(body) - 2       # up to, not including, the closing brace of the body
+            while cb > ls and body[cb] in " \n\t":
+                cb -= 1
+        elif blk.get("region_to_excl"):
             cb = body.rfind("\n", 0, k2)
             if cb < ls:
                 cb = ls - 1      # nothing precedes the end anchor: the region is empty
